@@ -1,6 +1,7 @@
 """C02 — the verifier accepts only an intact issuer-signed JWT under the resolver's key: verify-before-use plumbing.
 (DESIGN.md §4 C02: R1 must-pass-through, R2 argument provenance, R3 who-may-call, R4 who-may-write, R5 who-may-read)"""
 import cfg
+from facts import op_place
 import common
 import vmodel
 from common import success_edges, guarded
@@ -173,13 +174,40 @@ def run(ctx):
     ctx.ok("C02.R3", None, "insecure-api", "%d call sites scanned, none resolves to a jsonwebtoken insecure_*/dangerous_* API" % n_calls)
     # ---- R4
     dec_nodes = [n for (_, _, n, _) in A.issuer_decodes]
-    ws = common.struct_field_writes(fx, VSTRUCT, "sd_jwt_payload")
+    # writers are judged in the views of the functions that are subjects (a private helper's writes appear in its callers, in context)
+    all_subjects = fx.subjects(sorted(fx.fns))
+    ws = common.struct_field_writes(fx, VSTRUCT, "sd_jwt_payload", fns=all_subjects)
     if ws is None:
         ctx.missing("C02.R4", "sd_jwt_payload", "field not found")
         ws = []
     nclaims = 0
+    # `let p = std::mem::take(&mut self.sd_jwt_payload); …; self.sd_jwt_payload = p;`: the payload is moved out and put back unchanged on every
+    # path to a return: neither a mutation nor a foreign writer
+    parked = {}   # (fn name, bb of the borrow) -> take call node;  restores: id(value root) of the take
+    for w in ws:
+        if w["how"] != "mutborrow":
+            continue
+        f = w["fn"]
+        fv_ = vals(f)
+        bl_ = f.blocks[w["bb"]]
+        tt_ = bl_["term"]
+        st_ = bl_["stmts"][w["idx"]]
+        if tt_["k"] == "call" and (tt_.get("resolved") or tt_.get("callee") or "") in ("std::mem::take", "std::mem::replace") and tt_["args"] \
+                and fv_.call_node(w["bb"]).kids and is_field(peel(fv_.call_node(w["bb"]).kids[0]), "sd_jwt_payload", VSTRUCT):
+            take = fv_.call_node(w["bb"])
+            restores = [w2 for w2 in ws if w2["fn"] is f and w2["how"] in ("assign", "calldest") and w2["value"] is not None and peel(w2["value"]) is take]
+            rets = cfg.return_blocks(f)
+            start = tt_.get("target")
+            if restores and start is not None and not any(rb in cfg.reachable(f, [start], removed_blocks=[w2["bb"] for w2 in restores]) for rb in rets):
+                parked[(f.name, w["bb"])] = take
     for w in ws:
         f, line = w["fn"], w["line"]
+        if w["how"] == "mutborrow" and (f.name, w["bb"]) in parked:
+            ctx.ok("C02.R4", f, "sd_jwt_payload-parked", "the payload is moved out with mem::take and put back unchanged on every path to a return", line=line)
+            continue
+        if w["how"] in ("assign", "calldest") and w["value"] is not None and any(peel(w["value"]) is tk for tk in parked.values()):
+            ctx.ok("C02.R4", f, "sd_jwt_payload-restored", "the value taken out earlier is put back", line=line)
+            continue
         if w["how"] in ("mutborrow", "partial"):
             ctx.finding("C02.R4", f, "sd_jwt_payload-mut", "the verified payload is mutably borrowed / partially written after verification", line=line)
             continue
@@ -201,7 +229,7 @@ def run(ctx):
         if u is None:
             continue
         check_unpack_root(ctx, fx, u)
-    ws = common.struct_field_writes(fx, VSTRUCT, "_holder_public_key_payload") or []
+    ws = common.struct_field_writes(fx, VSTRUCT, "_holder_public_key_payload", fns=all_subjects) or []
     for w in ws:
         f, line = w["fn"], w["line"]
         if w["how"] in ("mutborrow", "partial"):
@@ -211,8 +239,24 @@ def run(ctx):
         if v.kind == "agg" and v.d["agg"].get("variant") == "None":
             ctx.ok("C02.R4", f, "holder-key-init", "None initialiser", line=line)
             continue
-        okv = must(w["value"], lambda x: x.kind == "call" and x.d["term"].get("name") == "get" and len(x.kids) > 1 and const_value(x.kids[1]) == "cnf"
-                   and must(x.kids[0], lambda y: is_field(y, "sd_jwt_payload", VSTRUCT)))
+        dec_sites2 = set(n.fn.orig_key(n.d["bb"]) for n in dec_nodes)
+
+        def verified_payload(y):
+            if is_field(y, "sd_jwt_payload", VSTRUCT):
+                return True
+            if y.kind == "field" and y.d.get("name") == "claims" and y.kids:
+                r_ = common._outcome_root(peel_proj(y.kids[0]))
+                return r_.kind == "call" and r_.fn.orig_key(r_.d["bb"]) in dec_sites2
+            return False
+
+        def from_cnf(val):
+            return must(val, lambda x: x.kind == "call" and x.d["term"].get("name") == "get" and len(x.kids) > 1 and const_value(x.kids[1]) == "cnf"
+                        and must(x.kids[0], verified_payload))
+        pv_ = peel(w["value"])
+        alts_ = [k for k in pv_.kids if k.kind != "cycle"] if pv_.kind == "phi" else [w["value"]]
+        nones_ = [a for a in alts_ if peel(a).kind == "agg" and peel(a).d["agg"].get("variant") == "None"]
+        rest_ = [a for a in alts_ if a not in nones_]
+        okv = bool(rest_) and all(from_cnf(a) for a in rest_)
         if okv:
             ctx.ok("C02.R4", f, "holder-key-from-cnf", "holder key payload must-derives from the verified payload's `cnf`", line=line)
         else:
